@@ -6,6 +6,7 @@ import (
 	"math"
 	"os"
 	"reflect"
+	"strings"
 	"testing"
 
 	"github.com/brutella/hc/rtp"
@@ -84,7 +85,25 @@ type Deep struct {
 	I InlineList `tlv8:"3"`
 }
 
+// Tag 0 is an ordinary tag for a field; it is also the type of the empty item that separates list elements.
+type ElemTag0 struct {
+	Z uint8  `tlv8:"0"`
+	V uint16 `tlv8:"1"`
+}
+type ListUnderTag0 struct {
+	Items []EA  `tlv8:"0"`
+	After uint8 `tlv8:"1"`
+}
+type InlineTag0First struct {
+	Items []ElemTag0 `tlv8:"-"`
+}
+type FieldsTag0 struct {
+	Z0 uint16 `tlv8:"0"`
+	S  string `tlv8:"1"`
+}
+
 var types = []reflect.Type{
+	reflect.TypeOf(ListUnderTag0{}), reflect.TypeOf(InlineTag0First{}), reflect.TypeOf(FieldsTag0{}),
 	reflect.TypeOf(Scalars{}), reflect.TypeOf(Nested{}), reflect.TypeOf(TaggedList{}), reflect.TypeOf(InlineList{}),
 	reflect.TypeOf(TwoInline{}), reflect.TypeOf(BigElemList{}), reflect.TypeOf(Deep{}),
 	reflect.TypeOf(rtp.SetupEndpoints{}), reflect.TypeOf(rtp.SetupEndpointsResponse{}), reflect.TypeOf(rtp.StreamConfiguration{}),
@@ -105,13 +124,13 @@ const (
 // ---- reflect-driven generator ----
 
 type genInfo struct {
-	extreme   bool // some field at a non-zero extreme
-	list2     bool // some list with >= 2 elements
-	zeroElem  bool // an inline-list element with all-zero fields
-	bigElem   bool // a tagged-list element longer than 255 bytes
-	elem255   bool // a tagged-list element (not the last) whose encoding is exactly k*255 bytes
-	kinds     map[string]bool
-	excluded  int
+	extreme  bool // some field at a non-zero extreme
+	list2    bool // some list with >= 2 elements
+	zeroElem bool // an inline-list element with all-zero fields
+	bigElem  bool // a tagged-list element longer than 255 bytes
+	elem255  bool // a tagged-list element (not the last) whose encoding is exactly k*255 bytes
+	kinds    map[string]bool
+	excluded int
 }
 
 var f32s = []float32{0, float32(math.Copysign(0, -1)), 1, -1, 0.5, math.SmallestNonzeroFloat32, -math.SmallestNonzeroFloat32, math.MaxFloat32, -math.MaxFloat32, 3.1415927, 1e-20, 29.97}
@@ -189,12 +208,23 @@ func genValue(t *rapid.T, typ reflect.Type, path string, inInline bool, info *ge
 			n = 1 // steer around the known finding
 			info.excluded++
 		}
-		mode := rapid.IntRange(0, 2).Draw(t, path+"m")
+		mode := rapid.IntRange(0, 3).Draw(t, path+"m")
 		b := fillBytes(n, byte(mode))
 		if mode == 0 {
 			for i := range b {
 				b[i] = 'a' + b[i]%26
 			}
+		}
+		if mode == 3 {
+			// valid text with multi-byte characters at every offset class: a 255-byte cut falls inside one of them
+			units := []string{"é", "€", "😀", "a"}
+			shift := rapid.IntRange(0, 3).Draw(t, path+"shift")
+			txt := strings.Repeat("x", shift)
+			for i := 0; len(txt) < n; i++ {
+				txt += units[(i+shift)%len(units)]
+			}
+			b = []byte(txt)
+			info.kinds["string:multibyte"] = true
 		}
 		v.SetString(string(b))
 		info.kinds["string"] = true
